@@ -336,12 +336,36 @@ type Object interface {
 
 // Apply performs one operation on the real object and returns its return class (see ThresholdSig.tla)
 func Apply(g *Group, o Object, op Op, rng *rand.Rand, truth []byte) (ret string, sig []byte) {
+	return applyOp(g, o, op, rng, truth, false)
+}
+
+// applyOp; scribble: the share is handed over in a private buffer that the caller overwrites right after the call (a reception
+// buffer reused for the next message)
+func applyOp(g *Group, o Object, op Op, rng *rand.Rand, truth []byte, scribble bool) (ret string, sig []byte) {
+	share := func() crypto.Signature {
+		sh := g.ShareOfKind(clampIdx(op.I, g.N), op.K, rng)
+		if scribble && sh != nil {
+			return append(crypto.Signature(nil), sh...)
+		}
+		return sh
+	}
+	wipe := func(b crypto.Signature) {
+		if scribble {
+			for i := range b {
+				b[i] = 0xEE
+			}
+		}
+	}
 	switch op.Name {
 	case "TrustedAdd":
-		en, err := o.TrustedAdd(op.I, g.ShareOfKind(clampIdx(op.I, g.N), op.K, rng))
+		sh := share()
+		en, err := o.TrustedAdd(op.I, sh)
+		wipe(sh)
 		return addErr(err, b2s(en)), nil
 	case "VerifyAndAdd":
-		v, en, err := o.VerifyAndAdd(op.I, g.ShareOfKind(clampIdx(op.I, g.N), op.K, rng))
+		sh := share()
+		v, en, err := o.VerifyAndAdd(op.I, sh)
+		wipe(sh)
 		return addErr(err, b2s(v)+","+b2s(en)), nil
 	case "HasShare":
 		h, err := o.HasShare(op.I)
@@ -445,6 +469,24 @@ func RunSeq(c SeqCase, g *Group, truth []byte) (res SeqResult) {
 			} else if !bytes.Equal(sig, truth) {
 				res.Violations = append(res.Violations, Violation{"C06", "UniqueGroupSignature",
 					fmt.Sprintf("ThresholdSignature() differs from the reference interpolation (ops %v)", ops(c.Hist))})
+			}
+		}
+	}
+	// the same history on a fresh object whose caller reuses (overwrites) every share buffer right after handing it in.  What the
+	// calls return is then not prescribed (the object may or may not have kept a private copy); what stays prescribed is that
+	// ThresholdSignature() never returns anything but the valid group signature.
+	o2, err := NewObject(g, c.Seed%2 == 1)
+	if err != nil {
+		return
+	}
+	rng2 := rand.New(rand.NewSource(c.Seed))
+	for _, st := range c.Hist {
+		_, sig := applyOp(g, o2, st.Op, rng2, truth, true)
+		if sig != nil {
+			if ok, err := g.PK.Verify(sig, g.Msg, h); err != nil || !ok || !bytes.Equal(sig, truth) {
+				res.Violations = append(res.Violations, Violation{"C06", "StatefulNeverBadSignature",
+					fmt.Sprintf("with share buffers overwritten by the caller after each add, ThresholdSignature() returned a signature that is not the valid group signature (ops %v)", ops(c.Hist))})
+				break
 			}
 		}
 	}
